@@ -354,6 +354,10 @@ def tampered(ck, rng, vi):
         ('two-encr-both-offered', [honest[0], {'type': 1, 'id': 12, 'keylen': 128}] + honest[1:], 1, None),
         ('missing-integ', [honest[0]] + honest[2:], 1, False), ('missing-dh', honest[:3], 1, False), ('missing-prf', honest[:2] + honest[3:], 1, False),
         ('wrong-protocol-esp', honest, 3, False),
+        # a required type dropped AND another transform listed twice (the number of transforms is what an honest answer has)
+        ('missing-dh-encr-twice', [honest[0], honest[0], honest[1], honest[2]], 1, False),
+        ('missing-prf-dh-twice', [honest[0], honest[1], honest[3], honest[3]], 1, False),
+        ('missing-integ-prf-twice', [honest[0], honest[2], honest[2], honest[3]], 1, False),
     ]
     child_honest = [{'type': 1, 'id': 12, 'keylen': 256}, {'type': 3, 'id': 12, 'keylen': None}, {'type': 5, 'id': 0, 'keylen': None}]
     child_variants = [
@@ -364,6 +368,9 @@ def tampered(ck, rng, vi):
         ('child-extra-dh-never-offered', child_honest + [{'type': 4, 'id': 19, 'keylen': None}], None, False),
         ('child-wrong-protocol-ah', child_honest[1:], 2, False),
         ('child-two-integ', child_honest[:2] + [{'type': 3, 'id': 2, 'keylen': None}, child_honest[2]], None, None),
+        ('child-missing-esn-encr-twice', [child_honest[0], child_honest[0], child_honest[1]], None, False),
+        ('child-missing-integ-esn-twice', [child_honest[0], child_honest[2], child_honest[2]], None, False),
+        ('child-missing-encr-integ-twice', [child_honest[1], child_honest[1], child_honest[2]], None, False),
         ('child-missing-esn', child_honest[:2], None, False), ('child-missing-integ', [child_honest[0], child_honest[2]], None, False), ('child-missing-encr', child_honest[1:], None, False),
     ]
     invalid_ke = [('invalid-ke-offered-group-14', struct.pack('>H', 14), True), ('invalid-ke-never-offered-group-20', struct.pack('>H', 20), False),
@@ -659,7 +666,7 @@ def run(ck):
         if ck.mine(i // 6):
             ke_group_aliases(ck, ck.rng('kealias', i), i)
     for rep in range(1 if not ck.thorough() else 40):
-        for vi in range(34):
+        for vi in range(44):
             if ck.mine(vi + rep):
                 tampered(ck, ck.rng('tamper', vi, rep), vi)
 
@@ -686,6 +693,6 @@ def verdict(ck):
     ck.floor('IKE_SA rekey selections compared', c['e2e.ike_rekey_selection_compared'], 150)
     ck.floor('INVALID_KE_PAYLOAD replies seen', c['e2e.invalid_ke_seen'] + c['e2e.child_invalid_ke'], 20)
     ck.floor('NO_PROPOSAL_CHOSEN outcomes seen', c['e2e.no_proposal_chosen_seen'] + c['e2e.child_no_proposal_chosen'], 10)
-    ck.floor('tampered-response variants', len(ck.sets['tamper.labels']) + c['tamper.invalid_ke'], 28)
+    ck.floor('tampered-response variants', len(ck.sets['tamper.labels']) + c['tamper.invalid_ke'], 34)
     ck.floor('initiator acceptances judged end to end', c['e2e.initiator_acceptance_judged'], 200)
     return None
